@@ -46,6 +46,8 @@ type gen struct {
 	stats    map[string]int
 	queries  []QuerySpec
 	claimAll []*vh.TxPlan // claims of the dedicated staker from all validators at once
+	deployer *vh.Acct      // whitelisted precompile deployer; holds the second denomination
+	dynErc20 common.Address // ERC-20 precompile deployed MID-history (zero until then)
 }
 
 type destroyScenario struct {
@@ -67,7 +69,10 @@ func newGen(r *vh.RNG, seed uint64) *gen {
 			g.vestInfo[a] = fmt.Sprintf("%s/end=%d", k, end)
 		}
 	}
+	g.deployer = vh.NewAcct(r)
+	accts = append(accts, vh.GenAccount{Addr: g.deployer.Addr, Coins: vh.NativeCoins(1000).Add(sdk.NewCoin(vh.SecondDenom, sdkmath.NewInt(5_000_000_000)))})
 	g.w = vh.NewWorld(r, vh.WorldOpts{Chain: vh.Config{Seed: seed, KeepBlocks: true, NumVals: 4, MaxGas: 40_000_000, Erc20Native: true, StakingCPC: true,
+		CpcWhitelist: []string{g.deployer.Bech32()},
 		Accounts: accts, SlashWindow: 8, UnbondingTime: 40 * time.Second, Inflation: true,
 		MutateGenesis: shortGov}, NumEOA: 8, Prog: vh.ProgOpts{MaxLen: 7, Depth: 2}, ExtraPool: g.vest})
 	ctx := g.w.C.QueryCtx()
@@ -118,6 +123,25 @@ func (g *gen) block(height int) ([]*vh.TxPlan, *vh.BlockOpt) {
 			p := w.PlanEth(staker, &to, nil, 3_000_000, data, "ok", nil)
 			add("staking-cpc-claim-all", p)
 			g.claimAll = append(g.claimAll, p)
+		}
+	}
+	// a custom precompile is deployed in the MIDDLE of the history and used from then on: the set of precompiles a block
+	// sees must come from that block's state alone, whatever the node (queries at old heights included) did in between
+	if height == 9 {
+		msg := &cpctypes.MsgDeployErc20ContractRequest{Authority: g.deployer.Bech32(), Name: "Second", Symbol: "SEC", Decimals: 6, MinDenom: vh.SecondDenom}
+		add("cpc-deploy-mid-history", g.cosmos(g.deployer, msg))
+	} else if height > 9 && height%3 == 1 {
+		if g.dynErc20 == (common.Address{}) {
+			if p := w.C.App.CPCKeeper.GetErc20CustomPrecompiledContractAddressByMinDenom(w.C.QueryCtx(), vh.SecondDenom); p != nil {
+				g.dynErc20 = *p
+			}
+		}
+		if g.dynErc20 != (common.Address{}) {
+			data, err := cpcabi.Erc20CpcInfo.ABI.Pack("transfer", vh.Pick(r, w.EOAs).Addr, big.NewInt(int64(1+r.Intn(1000))))
+			if err == nil {
+				to := g.dynErc20
+				add("erc20-cpc-deployed-mid-history", w.PlanEth(g.deployer, &to, nil, 300000, data, "ok", nil))
+			}
 		}
 	}
 	// fire destroy scenarios prepared in the previous block
